@@ -395,13 +395,13 @@ it0
             triu_state(*old(self), *self, old(blocktoKKT)@, blocktoKKT@, offset as int, blockdim as int, it0.index@ as int, 0),
             kidx == tri(it0.index@ as int),
 //@body_start 1
-            let ghost gj = col as int - offset;
+            let ghost gj = $var1 as int - offset;
             proof { lemma_tri_mono(gj + 1, blockdim as int); lemma_tri_mono(gj, gj); assert(tri(gj + 1) == tri(gj) + gj + 1); }
 //@iter 2
 it1
 //@loop 2
             invariant
-                0 <= gj < blockdim, col == offset + gj, it1.seq().len() == gj + 1, range_from_u(it1.seq(), offset as int),
+                0 <= gj < blockdim, $var1 == offset + gj, it1.seq().len() == gj + 1, range_from_u(it1.seq(), offset as int),
                 self.colptr@.len() <= usize::MAX, self.rowval@.len() <= usize::MAX, blocktoKKT@.len() <= usize::MAX,
                 tri_pre(*old(self), offset as int, blockdim as int, old(blocktoKKT)@.len() as int),
                 triu_state(*old(self), *self, old(blocktoKKT)@, blocktoKKT@, offset as int, blockdim as int, gj, it1.index@ as int),
@@ -409,10 +409,10 @@ it1
 //@body_start 2
                 let ghost s0 = *self;
                 let ghost map1 = blocktoKKT@;
-                let ghost gi = row as int - offset;
+                let ghost gi = $var2 as int - offset;
                 proof {
-                    assert(tri_cnt(col as int - offset, gj, gi) == gi);
-                    assert(self.colptr@[col as int] == old(self).colptr@[offset + gj] + gi);
+                    assert(tri_cnt(gj, gj, gi) == gi);
+                    assert(self.colptr@[offset + gj] == old(self).colptr@[offset + gj] + gi);
                     assert(old(self).colptr@[offset + gj] + gj + 1 <= old(self).rowval@.len());
                 }
 //@body_end 2
@@ -439,13 +439,13 @@ it0
             tril_state(*old(self), *self, old(blocktoKKT)@, blocktoKKT@, offset as int, blockdim as int, it0.index@ as int, 0),
             kidx == tri(it0.index@ as int),
 //@body_start 1
-            let ghost gr = row as int - offset;
+            let ghost gr = $var1 as int - offset;
             proof { lemma_tri_mono(gr + 1, blockdim as int); lemma_tri_mono(gr, gr); assert(tri(gr + 1) == tri(gr) + gr + 1); }
 //@iter 2
 it1
 //@loop 2
             invariant
-                0 <= gr < blockdim, row == offset + gr, it1.seq().len() == gr + 1, range_from_u(it1.seq(), offset as int),
+                0 <= gr < blockdim, $var1 == offset + gr, it1.seq().len() == gr + 1, range_from_u(it1.seq(), offset as int),
                 self.colptr@.len() <= usize::MAX, self.rowval@.len() <= usize::MAX, blocktoKKT@.len() <= usize::MAX,
                 tril_pre(*old(self), offset as int, blockdim as int, old(blocktoKKT)@.len() as int),
                 tril_state(*old(self), *self, old(blocktoKKT)@, blocktoKKT@, offset as int, blockdim as int, gr, it1.index@ as int),
@@ -453,10 +453,10 @@ it1
 //@body_start 2
                 let ghost s0 = *self;
                 let ghost map1 = blocktoKKT@;
-                let ghost gj = col as int - offset;
+                let ghost gj = $var2 as int - offset;
                 proof {
-                    assert(tril_cnt(col as int - offset, gr, gj) == gr - gj);
-                    assert(self.colptr@[col as int] == old(self).colptr@[offset + gj] + (gr - gj));
+                    assert(tril_cnt(gj, gr, gj) == gr - gj);
+                    assert(self.colptr@[offset + gj] == old(self).colptr@[offset + gj] + (gr - gj));
                     assert(old(self).colptr@[offset + gj] + (blockdim - gj) <= old(self).rowval@.len());
                 }
 //@body_end 2
